@@ -1,8 +1,9 @@
 CONSTANTS
-  Families = {"pql", "msg"}
+  Families = {"pql", "msg", "env"}
   Entries = {}
   SrvEntries = {}
   PqlEntries = {"api_query"}
+  EnvEntries = {"api_import_env", "http_import_env"}
   MsgEntries = {"api_msg", "http_msg", "gossip_msg", "gossip_merge"}
   Formats = {}
   Shapes <- TailsNone
